@@ -250,7 +250,8 @@ def coercion():
     from pydantic.fields import FieldInfo
     ANN = {"int": int, "float": float, "str": str, "bool": bool, "list": list[str], "optional_int": Optional[int]}
     VALS = {"digits": "12", "word": "abc", "int": 3, "float": 1.5, "true_s": "TRUE", "yes": "yes", "zero_s": "0", "csv": "a, b", "bool": True,
-            "none": None, "float_s": "1.5e3", "nan_s": "nan", "list": ["x"], "empty": ""}
+            "none": None, "float_s": "1.5e3", "nan_s": "nan", "list": ["x"], "empty": "",
+            "big_s": "9007199254740993", "frac_s": "42.7", "neg_s": " -7 "}
 
     def h(c):
         restore()
@@ -273,6 +274,15 @@ def coercion():
         if changed:
             c.check("C11.g", base is not None and type(v1) is base, {"what": "coercion produced a value that is not of the annotated type", **info})
             c.check("C11.g-log", len(coer) == 1, {"what": "coercion not recorded", **info})
+            if base is int and isinstance(v0, str) and type(v1) is int:
+                # a structure reported valid carries the values present in the raw text: turning a numeric string into an
+                # int may change its type, not its value
+                from fractions import Fraction
+                try:
+                    same_value = Fraction(v0.strip()) == v1
+                except (ValueError, ZeroDivisionError):
+                    same_value = False
+                c.check("C11.g-value", same_value, {"what": "string-to-int coercion changed the numeric value", **info})
         else:
             c.check("C11.g", True)
             c.check("C11.g-log", coer == [], {"what": "coercion recorded without a change", **info})
